@@ -167,13 +167,12 @@ fn dt(ms: i64) -> DateTime<Utc> {
 }
 
 fn name_for(seq: usize) -> String {
-    // The statement speaks about sequence numbers; the type letter of a name is independent of
-    // it (short volumes end with an E chunk below 55), so it is varied deterministically.
-    let t = match (seq, seq % 7) {
-        (_, 3) => "E",
-        (_, 5) => "S",
-        (1, _) => "S",
-        (55, _) => "E",
+    // names are derived from the sequence the way the bucket names chunks (1 = S, 55 = E): the
+    // statement quantifies over sequences and calls sequence 55 the end chunk, so a name whose type
+    // letter contradicts its sequence is outside it
+    let t = match seq {
+        1 => "S",
+        55 => "E",
         _ => "I",
     };
     format!("20240804-101007-{:03}-{}", seq, t)
